@@ -351,6 +351,11 @@ def structural_edits(name, vals, mode="fresh"):
     e = copy.deepcopy(inst)
     e._version = "9.9"
     edits.append(("version changed", e))
+    # (a version is a piece of text: other spellings of the same number are other versions)
+    for tag, ver in (("a trailing zero", str(inst._version) + "0"), ("a leading zero", "0" + str(inst._version)), ("exponent form", str(inst._version) + "e0")):
+        e = copy.deepcopy(inst)
+        e._version = ver
+        edits.append(("version changed by %s" % tag, e))
     e = copy.deepcopy(inst)
     e._target["name"] = "other_device"
     edits.append(("target changed", e))
